@@ -95,6 +95,20 @@ class Typer:
                         # astype(np.uint64) / astype(other.dtype): reinterprets the machine representation of the codes
                         self.events.append(("recast", e))
                 return t
+            if isinstance(e.func, ast.Attribute) and e.func.attr in ("pop", "get") and dotted(e.func.value) in ("kwargs",):
+                return Ty("num", Term.const(0))
+            if fn in ("np.clip", "utils.clip") and e.args:
+                t = self.ty(e.args[0])
+                bounds = list(e.args[1:3]) + [k.value for k in e.keywords if k.arg in ("val_min", "val_max", "a_min", "a_max", "min", "max")]
+                for b in bounds:
+                    if isinstance(b, ast.Constant) and b.value is None:
+                        continue
+                    try:
+                        tb = self.ty(b)
+                    except Unknown:
+                        continue
+                    if tb.kind == "code" and t.kind == "code" and tb.t != t.t:
+                        raise Mismatch("clip limits and the clipped codes have different binary points", e, "codes scaled by 2^(%s), limit by 2^(%s)" % (t.t.show(), tb.t.show()))
             if fn in REDUCE_SAME and e.args:
                 t = self.ty(e.args[0])
                 if t.kind != "code":
@@ -206,7 +220,7 @@ class Typer:
                 return Ty("num", Term.const(0))
             for a, b in ((l, r), (r, l)):
                 if a.kind == "pow2" and b.kind == "num":
-                    raise Unknown("constant times power of two")
+                    return Ty("code", a.t, set(), {"from_number": True})     # a real number scaled by 2^k is a code with k fraction bits
         if isinstance(op, ast.FloorDiv):
             if l.kind == "code" and r.kind == "code":
                 return Ty("code", l.t - r.t, l.ops | r.ops, {"floordiv": True})
